@@ -7,6 +7,9 @@ ok=0; miss=0
 for d in seeded/${1:-C*}; do
   [ -f "$d/patch.diff" ] || continue
   p=$(basename "$d" | cut -c1-3)
+  # a few changes are outside what the owning check observes and are reported by another check (meta.json: check_with)
+  cw=$(/venv/bin/python -c "import json,sys; print(json.load(open(sys.argv[1])).get('check_with',''))" "$d/meta.json" 2>/dev/null)
+  [ -n "$cw" ] && p=$cw
   WT=/tmp/sens_$$
   git -C /repo worktree remove --force $WT 2>/dev/null
   git -C /repo worktree add -q --detach $WT HEAD || exit 2
